@@ -25,7 +25,7 @@ class Coll(Term):
         self.elem = elem
         self.keyterm = keyterm
 
-    def key(self):
+    def _key(self):
         return f"Coll({self.elem.key()})"
 
 
@@ -63,7 +63,7 @@ class Event:
     def key(self):
         t = self.target.key() if isinstance(self.target, Term) else str(self.target)
         o = self.opts.key() if isinstance(self.opts, Term) else str(self.opts)
-        return (self.kind, self.op, t, o, self.failed, self.text if self.kind != "op" else "")
+        return (self.kind, self.op, t, o, self.failed, self.text if self.kind != "op" else "", self.line)
 
     def short(self):
         if self.kind == "op":
@@ -768,7 +768,9 @@ class Frame:
                                            self.bind_params(fn, True, [idx], {}, owner.module), q, e))
                 return out
         for q, (t, idx) in [(q, ts) for q, ts in self.seq([e.value, e.slice], p)]:
-            if isinstance(t, Child):
+            if isinstance(e.slice, ast.Slice) and isinstance(t, (Child, Coll, Seq)):
+                out.append((q, t))
+            elif isinstance(t, Child):
                 c = Child(t.path + "[*]")
                 c.index = idx
                 c.kind = "node" if getattr(t, "kind", "") == "nodes" else getattr(t, "kind", "other")
@@ -1036,6 +1038,20 @@ class Frame:
         if isinstance(f, ast.Attribute) and isinstance(f.value, ast.Call) and isinstance(f.value.func, ast.Name) and f.value.func.id == "super":
             return [(q, Sym("super." + f.attr, tuple(pos))) for q, pos, kw in self.call_args(e, p)]
         out = []
+        if isinstance(f, ast.Attribute) and f.attr in ("append", "add", "extend") and isinstance(f.value, ast.Name) and len(e.args) == 1 and not e.keywords:
+            cur = p.env.get(f.value.id)
+            if isinstance(cur, Seq) or (isinstance(cur, Sym) and cur.head in ("list[]", "call:set", "call:list")):
+                for q, t in self.expr(e.args[0], p):
+                    if q.status == "live":
+                        base = q.env.get(f.value.id)
+                        items = list(base.items) if isinstance(base, Seq) else []
+                        if f.attr == "extend":
+                            items.append(Sym("star", (t,)))
+                        else:
+                            items.append(t)
+                        q.env[f.value.id] = Seq(items)
+                    out.append((q, Const(None)))
+                return out
         for q, callee in self.expr(f, p):
             if q.status != "live":
                 out.append((q, Opaque("dead")))
@@ -1160,7 +1176,8 @@ class Frame:
             if r is None or r[0].name in ("Evaluatable", "Cacheable", "Validatable", "Explainable", "Transformation"):
                 self.ev(p, "op", op=op, target=target, opts=opts, line=line)
                 return [(p, Val(op, target))]
-            if self.ctx.unfolding.count(tag) >= 4 or self.depth >= self.ctx.max_depth:
+            limit = 4 if _has_child_leaf(target) else 1
+            if self.ctx.unfolding.count(tag) >= limit or self.depth >= self.ctx.max_depth:
                 e = self.ev(p, "op", op=op, target=target, opts=opts, line=line)
                 e.text = "atomic"
                 return [(p, Val(op, target))]
@@ -1284,6 +1301,21 @@ class Frame:
             self.ev(p, "call", text="<depth-cap>", line=getattr(node, "lineno", 0))
             return [(p, Opaque("depth-cap"))]
         self.ctx.inlined += 1
+        if not hasattr(self.ctx, "call_stack"):
+            self.ctx.call_stack = []
+        plain = selfattrs is None and not isinstance(selfterm, New)
+        if not isinstance(fn, ast.Lambda) and plain and self.ctx.call_stack.count(id(fn)) >= 1:
+            # plain (non-node) recursion: do not unfold again
+            args_ = tuple(v for v in bound.values() if isinstance(v, Term))
+            self.ev(p, "call", text=fn.name + "<recursive>", args=args_, line=getattr(node, "lineno", 0))
+            return [(p, Sym("call:" + fn.name, args_))]
+        self.ctx.call_stack.append(id(fn))
+        try:
+            return self._inline(module, owner, fn, selfterm, selfattrs, bound, p, node, via)
+        finally:
+            self.ctx.call_stack.pop()
+
+    def _inline(self, module, owner, fn, selfterm, selfattrs, bound, p, node, via):
         if not isinstance(fn, ast.Lambda):
             self.ev(p, "enter", text=fn.name, args=tuple(v for k, v in bound.items()), line=getattr(node, "lineno", 0),
                     target=Sym("args", tuple(Sym("kw:" + k, (v,)) for k, v in bound.items() if isinstance(v, Term))))
@@ -1399,6 +1431,7 @@ class Frame:
                 new.attrs[k] = nodeish[0]
             else:
                 new.attrs[k] = Sym("oneof", tuple(vs))
+        new._k = None
         # one caller path: events of the first normal path (constructors hold
         # no ops; R-CL checks that separately)
         q0 = ok[0][0]
@@ -1446,6 +1479,28 @@ MISSING = _Sentinel()
 
 def strip_ensure(t: Term) -> Term:
     return t
+
+
+def _has_child_leaf(t: Term, _d: int = 0) -> bool:
+    """Does the term mention a child of the analysed object?  Terms that do
+    not (``Option(key)`` built from a template key) cannot contribute facts
+    about the object's children, so they are unfolded only once."""
+    if _d > 12:
+        return True
+    if isinstance(t, Child):
+        return True
+    if isinstance(t, New):
+        return any(_has_child_leaf(v, _d + 1) for v in t.attrs.values())
+    if isinstance(t, Coll):
+        return _has_child_leaf(t.elem, _d + 1)
+    if isinstance(t, Seq):
+        return any(_has_child_leaf(v, _d + 1) for v in t.items)
+    if isinstance(t, (Sym, Val, Bound)):
+        subs = list(getattr(t, "args", ())) + ([t.target] if hasattr(t, "target") else [])
+        return any(_has_child_leaf(v, _d + 1) for v in subs if isinstance(v, Term))
+    if isinstance(t, Fn):
+        return any(_has_child_leaf(v, _d + 1) for v in list(t.bound.values()) + list(t.pos))
+    return False
 
 
 def project(t: Term, i: int) -> Term:
